@@ -129,3 +129,114 @@ Definition run_other (out : bool) (arg : sx) : sx :=
     end
   | _ => sx_err
   end.
+
+(* ---- builders and layers ---- *)
+From PTA Require Import Builder Layer.
+
+Definition as_rcall (s : sx) : option (@rcall N) :=
+  match s with
+  | L [A 0] => Some RModulesThat
+  | L [A 1; ns] => option_map RAreNamed (as_list as_name ns)
+  | L [A 2; ns] => option_map RAreSubModulesOf (as_list as_name ns)
+  | L [A 3; A r] => Some (RHaveNameMatching r)
+  | L [A 4; rs] => option_map RHaveNameContaining (as_Ns rs)
+  | L [A 5] => Some RShould
+  | L [A 6] => Some RShouldOnly
+  | L [A 7] => Some RShouldNot
+  | L [A 8] => Some RImport
+  | L [A 9] => Some RBeImportedBy
+  | L [A 10] => Some RImportExcept
+  | L [A 11] => Some RBeImportedByExcept
+  | L [A 12] => Some RImportAnything
+  | L [A 13] => Some RBeImportedByAnything
+  | _ => None
+  end.
+
+(* fn 14: Rule call histories, each followed by assert_applies(g); also what the specification automaton says *)
+Definition run_rule_histories (arg : sx) : sx :=
+  match arg with
+  | L [g; t; hs] =>
+    match as_graph g, as_rtable t, as_list (as_list as_rcall) hs with
+    | Some g, Some t, Some hs =>
+      L (map (fun h => L [of_outcome (run_rule ceq (rmatch_of t) g h); of_bool (spec_accepts h)]) hs)
+    | _, _, _ => sx_err
+    end
+  | _ => sx_err
+  end.
+
+Definition as_lfilt (s : sx) : option (@lfilt N) :=
+  match s with
+  | L [A 0; n] => option_map LName (as_name n)
+  | L [A 1; A r] => Some (LRegex r)
+  | _ => None
+  end.
+Definition of_lfilt (f : @lfilt N) : sx :=
+  match f with LName n => L [A 0; of_name n] | LRegex r => L [A 1; A r] end.
+Definition as_larch : sx -> option (@larch N) := as_list (as_pair as_N (as_list as_lfilt)).
+Definition of_larch (a : @larch N) : sx := of_list (of_pair A (of_list of_lfilt)) a.
+
+Definition as_lacall (s : sx) : option (@lacall N) :=
+  match s with
+  | L [A 0; A l] => Some (LALayer l)
+  | L [A 1; m] => option_map LAContainingStr (as_name m)
+  | L [A 2; ms] => option_map LAContainingList (as_list as_name ms)
+  | L [A 3; A r] => Some (LAMatching r)
+  | L [A 4] => Some LAWithLayer
+  | _ => None
+  end.
+
+(* number of calls accepted before the first rejection, and the architecture reached *)
+Fixpoint la_trace (a : @larch N) (cs : list (@lacall N)) (k : N) : N * @larch N :=
+  match cs with
+  | [] => (k, a)
+  | c :: r => match la_step ceq a c with Ok a' => la_trace a' r (N.succ k) | Er _ => (k, a) end
+  end.
+
+(* fn 15: LayeredArchitecture call histories *)
+Definition run_la_histories (arg : sx) : sx :=
+  match as_list (as_list as_lacall) arg with
+  | Some hs => L (map (fun h => let r := la_trace [] h 0 in L [A (fst r); of_larch (snd r)]) hs)
+  | None => sx_err
+  end.
+
+Definition as_lrcall (s : sx) : option (@lrcall N) :=
+  match s with
+  | L [A 0; a] => option_map LRBasedOn (as_larch a)
+  | L [A 1] => Some LRLayersThat
+  | L [A 2; A l] => Some (LRAreNamedStr l)
+  | L [A 3; ls] => option_map LRAreNamedList (as_Ns ls)
+  | L [A 4] => Some LRShould
+  | L [A 5] => Some LRShouldOnly
+  | L [A 6] => Some LRShouldNot
+  | L [A 7] => Some LRAccess
+  | L [A 8] => Some LRBeAccessedBy
+  | L [A 9] => Some LRAccessExcept
+  | L [A 10] => Some LRBeAccessedByExcept
+  | L [A 11] => Some LRAccessAny
+  | L [A 12] => Some LRBeAccessedByAny
+  | _ => None
+  end.
+
+Definition of_lline (l : @lline N) : sx :=
+  match l with
+  | LLConc x lx y ly => L [A 0; of_name x; of_opt A lx; of_name y; of_opt A ly]
+  | LLMissing l ms => L [A 1; A l; of_Ns ms]
+  | LLMissingAny l ms => L [A 2; A l; of_Ns ms]
+  end.
+Definition of_loutcome (o : @loutcome N) : sx :=
+  match o with
+  | LPass => L [A 0]
+  | LFail ls => L [A 1; of_list of_lline ls]
+  | LErr e => L [A 2; of_err e]
+  end.
+
+(* fn 16: LayerRule call histories, each followed by assert_applies(g) *)
+Definition run_layer_histories (arg : sx) : sx :=
+  match arg with
+  | L [g; t; hs] =>
+    match as_graph g, as_rtable t, as_list (as_list as_lrcall) hs with
+    | Some g, Some t, Some hs => L (map (fun h => of_loutcome (run_layer_rule ceq (rmatch_of t) g h)) hs)
+    | _, _, _ => sx_err
+    end
+  | _ => sx_err
+  end.
